@@ -121,6 +121,23 @@ func (x *Exec) stdlibCall(st *State, fr *Frame, v *ssa.Call, f *ssa.Function, ar
 		x.checkStore(st, fr, v, p)
 		x.storePtr(st, p, Ssub(cur, IntC(0), n))
 		return
+	case "sort.Strings":
+		use("permutes the elements of the slice in place (result order is canonical)")
+		sl := args[0].(*SliceV)
+		et := types.Typ[types.String]
+		x.checkFrame(st, fr, v, sl.Base, elemKey(et, ""))
+		key := elemKey(et, "")
+		arr := st.heapArr(key, ArrSort(SInt, ArrSort(SInt, SStr)))
+		old := Select(arr, sl.Base)
+		na := Fresh("sorted", ArrSort(SInt, SStr))
+		bv := Sym("b!k", SInt)
+		perm := UF("perm!"+na.Name, SInt, bv)
+		inRange := And(Ge(bv, sl.Off), Lt(bv, Add(sl.Off, sl.Len)))
+		st.assumeDef(Forall([]*T{bv}, Ite(inRange,
+			And(Eq(Select(na, bv), Select(old, perm)), Ge(perm, sl.Off), Lt(perm, Add(sl.Off, sl.Len))),
+			Eq(Select(na, bv), Select(old, bv)))))
+		st.setHeap(key, Store(arr, sl.Base, na))
+		return
 	case "strings.Repeat":
 		use("requires count >= 0")
 		n := x.scalar(args[1])
